@@ -4,6 +4,7 @@
 #![allow(dead_code)]
 
 mod accept;
+mod api;
 mod arith;
 mod codec;
 mod fam;
@@ -103,6 +104,13 @@ fn main() {
         ("record", "vectors") => {
             let mut o = out::Out::new(&outp, shard);
             wire::record_vectors(&mut o, &get("in", ""), &get("mode", "roundtrip"), seed);
+            let n = o.seq;
+            let shards = o.finish();
+            println!("{{\"events\":{n},\"shards\":{shards}}}");
+        }
+        ("record", "api") => {
+            let mut o = out::Out::new(&outp, shard);
+            api::record_api(&mut o, seed);
             let n = o.seq;
             let shards = o.finish();
             println!("{{\"events\":{n},\"shards\":{shards}}}");
